@@ -243,7 +243,7 @@ class Plan:
 
     def build_variants(self, mode: str):
         """Group "every": ONE well-formed instance of EVERY registered action type (on the node C05's generator drew, and on the first
-        Computer and the first Server of the scenario).  Group "optional": the same instances with EACH field that the action's schema
+        node of every kind of the scenario: computer, server, switch, router, firewall, ...).  Group "optional": the same instances with EACH field that the action's schema
         declares optional omitted in turn, and with all of them omitted.  An application the request addresses
         ([..., 'application', X, ...]) that the node does not have is installed by a preceding step."""
         kinds: Dict[str, str] = {}
@@ -255,8 +255,8 @@ class Plan:
             tpl = _template(ident, self.reg, self.sim, self.vocab, self._tpl)
             nf = next((f for f in NODE_FIELDS if f in fields), None)
             nodes = [tpl.get(nf)] if nf else [None]
-            if nf in ("node_name", "source_node"):
-                nodes += [h for h in hosts if h not in nodes]
+            if nf in ("node_name", "source_node", "target_nodename"):     # … and on the first node of EVERY kind (switch, router, firewall, …)
+                nodes += [h for h in hosts + [kinds[k] for k in sorted(kinds)] if h not in nodes]
             for node in nodes:
                 base = copy.deepcopy(tpl)
                 if nf and node is not None:
@@ -285,7 +285,7 @@ class Plan:
                     if a is None:
                         continue
                     self.segments.append({"kind": mode, "node": str(node), "family": ident, "scope": label, "steps": [(ident, label)], "ops": pre + [a],
-                                          "uses": {(str(node), "variant", None, None)}})
+                                          "uses": {(str(node), "variant", None, None if any(w in ident for w in ("shutdown", "reset", "startup")) else ident)}})
                     self.stats[f"segments:{mode}"] = self.stats.get(f"segments:{mode}", 0) + 1
 
     def cfg(self) -> Dict:
